@@ -115,4 +115,57 @@ theorem lcommit_ok_iff (l : Linker) (fs : FS)
       ((∃ s0, (run env (lcommit cfg (bare l)) fs).1 = .ok s0) ∧ SizeOk l ∧ IntegrityOk cfg l) :=
   LinkDecl.lcommit_ok_iff cfg env l fs hins
 
+/-- **The decision order on ANY filesystem: link phase, then integrity, then size.**  With a declared
+size that is not the target's length (and an integrity declaration that is absent or accepted):
+if the link phase — the commit of the bare linker — answers ok, the commit answers EXACTLY
+`.error (.size n len)`; if the link phase fails with `e`, the commit answers that `.error e`. -/
+theorem linkto_size_exact (l : Linker) (fs : FS) (n : Nat) (hz : l.opts.size = some n)
+    (hne : n ≠ l.data.length)
+    (hs : l.opts.sri = none ∨ ∃ s, l.opts.sri = some s ∧
+      (Sri.declaredOk s (Sri.compute cfg.H l.algo l.data)).isSome) :
+    (∀ s0, (run env (lcommit cfg (bare l)) fs).1 = .ok s0 →
+      (run env (lcommit cfg l) fs).1 = .error (.size n l.data.length)) ∧
+    (∀ e, (run env (lcommit cfg (bare l)) fs).1 = .error e →
+      (run env (lcommit cfg l) fs).1 = .error e) := by
+  constructor
+  · intro s0 h
+    rw [(run_lcommit_of_phase cfg env l fs s0 h).1]
+    exact (run_declTail_error cfg env l _ (declCheck_size_mismatch hz hne hs) _).1
+  · intro e h
+    exact (run_lcommit_of_phase_error cfg env l fs e h).1
+
+/-- The same for a declared integrity the target's bytes do not satisfy (checked before the size,
+so whatever the size declaration): exactly `.error .integrity` after a successful link phase. -/
+theorem linkto_integrity_exact (l : Linker) (fs : FS) (s : Integrity) (hs : l.opts.sri = some s)
+    (hm : Sri.declaredOk s (Sri.compute cfg.H l.algo l.data) = none) :
+    (∀ s0, (run env (lcommit cfg (bare l)) fs).1 = .ok s0 →
+      (run env (lcommit cfg l) fs).1 = .error .integrity) ∧
+    (∀ e, (run env (lcommit cfg (bare l)) fs).1 = .error e →
+      (run env (lcommit cfg l) fs).1 = .error e) := by
+  constructor
+  · intro s0 h
+    rw [(run_lcommit_of_phase cfg env l fs s0 h).1]
+    exact (run_declTail_error cfg env l _ (declCheck_mismatch _ hs hm) _).1
+  · intro e h
+    exact (run_lcommit_of_phase_error cfg env l fs e h).1
+
+/-- What the link phase can answer, whatever the calls answer: the computed integrity, an I/O
+error, or `panic` (see `C20.lcommit_no_panic` for when). -/
+theorem link_phase_answers (l : Linker) :
+    AllCallsR (fun _ => True)
+      (fun r => r = .ok (Sri.compute cfg.H l.algo l.data) ∨ (∃ e, r = .error (.io e)) ∨
+        r = .error .panic) (lcommit cfg (bare l)) := by
+  unfold lcommit dropTmp bare
+  dsimp only
+  repeat' ac_step
+  all_goals first
+    | trivial
+    | exact Or.inl rfl
+    | exact Or.inr (Or.inl ⟨_, rfl⟩)
+    | exact Or.inr (Or.inr rfl)
+    | exact Or.inl trivial
+    | exact Or.inr (Or.inr trivial)
+    | exact Or.inr (Or.inl trivial)
+    | exact Or.inr (Or.inl ⟨_, trivial⟩)
+
 end Cacache.C19x
